@@ -427,8 +427,8 @@ type Exec struct {
 }
 
 // RunOne runs the scenario once with the given choice prefix (choice 0 afterwards).
-func RunOne(t *testing.T, sc *Scenario, prefix []int) *Exec {
-	x := &Exec{InvPoint: -1}
+func RunOne(t *testing.T, sc *Scenario, prefix []int) (x *Exec) {
+	x = &Exec{InvPoint: -1}
 	defer func() {
 		// Goroutines of the code under test that stay blocked on something
 		// the harness cannot break (e.g. an internal io.Pipe) make synctest
